@@ -2,7 +2,7 @@
 Sparse `sptensor.__setitem__` / `sptensor.__getitem__` (sptensor.py) and the index
 helpers they use (`subdims`, `extract`, `tt_renumber`, `tt_irenumber`,
 `tt_ismember_rows`, `tt_intersect_rows`, `tt_setdiff_rows`), branch by branch, after the
-fixes 45cd67c, f882b98, c834fd5, 5c3324a.  Import-free.
+fixes 45cd67c, f882b98, c834fd5, 5c3324a, 7df40d2.  Import-free.
 -/
 import PyttbModel.Core.Key
 import PyttbModel.Core.Rows
@@ -42,21 +42,37 @@ def partIdx (ext : Nat) : RPart → Except Reject (List Nat)
   | .slice a b c => pySlice ext a b c
 
 /-- `__setitem__` / `__getitem__` rewrite a negative integer as `shape[dim] + entry`
-(an `IndexError` when the mode does not exist). -/
-def rewriteNeg (shape : List Nat) (parts : List RPart) : Except Reject (List RPart) :=
-  (List.range parts.length).mapM fun d =>
-    match parts.getD d (.int 0) with
-    | .int i =>
-      if i < 0 then
-        if d < shape.length then .ok (.int ((shape.getD d 0 : Int) + i)) else .error .reject
-      else .ok (.int i)
-    | p => .ok p
+(`ext = some e` for an existing mode; an `IndexError` when the mode does not exist). -/
+def rewriteNegPart (ext : Option Nat) : RPart → Except Reject RPart
+  | .int i =>
+    if i < 0 then
+      match ext with
+      | some e => .ok (.int ((e : Int) + i))
+      | none => .error .reject
+    else .ok (.int i)
+  | p => .ok p
+
+def rewriteNeg : List Nat → List RPart → Except Reject (List RPart)
+  | _, [] => .ok []
+  | [], p :: ps => do
+    let q ← rewriteNegPart none p
+    let qs ← rewriteNeg [] ps
+    .ok (q :: qs)
+  | e :: es, p :: ps => do
+    let q ← rewriteNegPart (some e) p
+    let qs ← rewriteNeg es ps
+    .ok (q :: qs)
+
+/-- A stored subscript lies in the region: mode by mode its coordinate is one of the
+selected indices (`np.isin(subs[loc, i], region[i])`). -/
+def inRegionB : List (List Nat) → List Nat → Bool
+  | [], [] => true
+  | l :: ls, x :: xs => l.contains x && inRegionB ls xs
+  | _, _ => false
 
 /-- `subdims(region)`: positions of the stored entries inside the region. -/
 def subdims (S : Sparse α) (idx : List (List Nat)) : List Nat :=
-  (List.range S.subs.length).filter fun k =>
-    let r := S.subs.getD k []
-    (List.range idx.length).all fun m => (idx.getD m []).contains (r.getD m 0)
+  (List.range S.subs.length).filter fun k => inRegionB idx (S.subs.getD k [])
 
 /-- Keep the entries at the given positions (`subs[loc, :]`, `vals[loc]`). -/
 def takeAt [Zero α] (S : Sparse α) (loc : List Nat) : Sparse α :=
@@ -126,33 +142,45 @@ def setSubscripts [Zero α] [BEq α] (S : Sparse α) (rows : List (List Nat)) (r
           max (shape1.getD m 0) (maxNat (uniq.map fun r => r.getD m 0) + 1)
         .ok ⟨shape2, ent.1, ent.2⟩
 
-/-- New size of `_set_subtensor` for a scalar right-hand side. -/
-def newSizeScalar (shape : List Nat) (parts : List RPart) : Except Reject (List Nat) :=
-  let n := shape.length
-  if parts.length < n then .error .reject
-  else
-    (List.range parts.length).mapM fun d =>
-      let ext := shape.getD d 0
-      match parts.getD d (.int 0) with
-      | .slice _ b _ =>
-        if d < n then
-          match b with
-          | none => .ok ext
-          | some b => .ok (if (ext : Int) < b then b.toNat else ext)
-        else
-          match b with
-          | none => .error .reject
-          | some b => if 0 < b then .ok b.toNat else .error .reject
-      | .list is =>
-        if is.isEmpty then .error .reject
-        else .ok (if d < n then max ext (maxNat is + 1) else maxNat is + 1)
-      | .int i =>
-        if i < 0 then .error .reject
-        else .ok (if d < n then max ext (i.toNat + 1) else i.toNat + 1)
+/-- One entry of the new size of `_set_subtensor` for a scalar right-hand side
+(`ext = some e`: existing mode; `none`: new mode, where an open slice is refused). -/
+def newExtScalar (ext : Option Nat) : RPart → Except Reject Nat
+  | .slice _ b _ =>
+    match ext, b with
+    | some e, none => .ok e
+    | some e, some b => .ok (if (e : Int) < b then b.toNat else e)
+    | none, none => .error .reject
+    | none, some b => if 0 ≤ b then .ok b.toNat else .error .reject
+  | .list is =>
+    if is.isEmpty then .error .reject
+    else .ok (match ext with | some e => max e (maxNat is + 1) | none => maxNat is + 1)
+  | .int i =>
+    if i < 0 then .error .reject
+    else .ok (match ext with | some e => max e (i.toNat + 1) | none => i.toNat + 1)
 
-/-- Index lists of every mode of a (rewritten) region key against a shape. -/
-def regionIdx (shape : List Nat) (parts : List RPart) : Except Reject (List (List Nat)) :=
-  (List.range parts.length).mapM fun d => partIdx (shape.getD d 0) (parts.getD d (.int 0))
+/-- New size of `_set_subtensor` for a scalar right-hand side; a key shorter than the
+order is an `IndexError`. -/
+def newSizeScalar : List Nat → List RPart → Except Reject (List Nat)
+  | [], [] => .ok []
+  | _ :: _, [] => .error .reject
+  | [], p :: ps => do
+    let e ← newExtScalar none p
+    let es ← newSizeScalar [] ps
+    .ok (e :: es)
+  | e0 :: s, p :: ps => do
+    let e ← newExtScalar (some e0) p
+    let es ← newSizeScalar s ps
+    .ok (e :: es)
+
+/-- Index lists of every mode of a (rewritten) region key against a shape of the same
+length. -/
+def regionIdx : List Nat → List RPart → Except Reject (List (List Nat))
+  | [], [] => .ok []
+  | e :: es, p :: ps => do
+    let l ← partIdx e p
+    let ls ← regionIdx es ps
+    .ok (l :: ls)
+  | _, _ => .error .reject
 
 /-- `_set_subtensor(key, value)` for zero and scalar right-hand sides. -/
 def setSubtensorScalar [Zero α] [BEq α] (S : Sparse α) (parts : List RPart) (v : α) :
@@ -170,7 +198,9 @@ def setSubtensorScalar [Zero α] [BEq α] (S : Sparse α) (parts : List RPart) (
     -- every subscript of the region, first mode slowest (the Khatri-Rao construction)
     let addsubs := outerC idx
     if subs'.isEmpty then
-      .ok ⟨shape', addsubs, addsubs.map fun _ => v⟩
+      -- nothing stored: the distinct region subscripts, in order of first occurrence
+      let fresh := addsubs.eraseDups
+      .ok ⟨shape', fresh, fresh.map fun _ => v⟩
     else
       let loc := intersectRows (toIntRows subs') (toIntRows addsubs)
       let vals' := scatter1 S.vals (loc.map fun k => (k, v))
@@ -237,11 +267,7 @@ def setSubtensorSparse [Zero α] (S : Sparse α) (parts : List RPart) (V : Spars
 /-- `sptensor.__setitem__`. -/
 def setItem [Zero α] [BEq α] (S : Sparse α) (key : Key) (rhs : Rhs α) : Except Reject (Sparse α) :=
   -- empty tensor and empty right-hand side: nothing to do
-  let emptyRhs := match rhs with
-    | .col vs => vs.isEmpty
-    | .arr T => T.data.isEmpty
-    | _ => false
-  if S.vals.isEmpty && emptyRhs then .ok S
+  if S.vals.isEmpty && rhs.isEmptyValue then .ok S
   else
     match key with
     | .region parts => do
